@@ -163,7 +163,26 @@ def evaluate(ctx, prop, exe, fix, names, shutdown_only, label):
     return all_cases
 
 
+def design_step(ctx, prop):
+    """TLC on the writer + crash + rebuild model (RockWriter.tla): today's design holds C16/C17 up to the named findings, the
+    repaired design holds them strictly; and the strict invariant IS violated on today's design (the finding exists at design level)."""
+    mod = os.path.join(SPEC, 'MC_RockWriter.tla')
+    runs = ['q', 'q_fixed'] + (['t', 't_fixed'] if ctx.thorough else [])
+    for c in runs:
+        res = vlib.tlc_must_pass(ctx, mod, os.path.join(SPEC, 'MC_RockWriter_%s.cfg' % c), timeout=3000, args=['-noGenerateSpecTE'])
+        ctx.log('TLC MC_RockWriter_%s: %d states, depth %d, %.0fs' % (c, res.distinct, res.depth, res.wall))
+        ctx.add('mc_states', res.distinct)
+    strict = {'C16': ('q_c16', 'CrashSafe'), 'C17': ('q_c17', 'SurvivesShutdown')}[prop]
+    res = vlib.tlc(ctx, mod, os.path.join(SPEC, 'MC_RockWriter_%s.cfg' % strict[0]), timeout=1500, args=['-noGenerateSpecTE'])
+    ctx.cov['design_level_counterexample'] = (res.invariant == strict[1])
+    ctx.log('TLC MC_RockWriter_%s (strict %s on today\'s design): %s' % (strict[0], strict[1], 'violated, as the findings say' if res.invariant == strict[1]
+                                                                         else 'holds' if res.clean else 'error'))
+    if not res.clean and res.invariant != strict[1]:
+        raise vlib.MachineryError('MC_RockWriter_%s failed:\n%s' % (strict[0], res.tail(30)))
+
+
 def run_unit(ctx):
+    design_step(ctx, 'C16')
     exe = C57.build_driver(ctx)
     fix = C57.detect_repairs(ctx, exe)
     evaluate(ctx, 'C16', exe, fix, workloads(ctx), False, 'rockcrash')
